@@ -259,6 +259,14 @@ class ThresholdCheck(Check):
     def shrink(self, case):
         return tc.shrink_case(case)
 
+    def known(self, case, problem, entries):
+        # F17: a score pair whose float midpoint is not strictly between the two scores (adjacent doubles)
+        if problem.kind in ("property", "correspondence") and tc.midpoint_rounds_onto_score(case):
+            for e in entries:
+                if e.get("predicate") == "midpoint_rounds_onto_score":
+                    return e
+        return None
+
     def impl(self, case):
         return tc.run_impl(case)
 
@@ -289,14 +297,20 @@ class ThresholdCheck(Check):
 class CHECK(ThresholdCheck):
     pid = "C04"
     small = False
-    technique = ("Lean 4 theorems over the Threshold model (sweep, monotone-chain hull, interpolation index, fit) with "
-                 "translator-generated METRIC_DICT / confusion tables + compiled-driver correspondence with "
-                 "ThresholdOptimizer.fit / _pmf_predict")
+    technique = ("Lean 4 theorems over the Threshold model (sweep, monotone-chain hull, interpolation index, fit, fit -> "
+                 "predict), the model being DEFINED over four files lifted from the source on every run: METRIC_DICT / "
+                 "confusion tables, the geometric core of _tradeoff_curve_utilities.py (hull turn test, interpolation "
+                 "weights and index, threshold candidates, sort orders), the predict path (ThresholdOperation.__call__, "
+                 "_pmf_predict, predict) and the fit glue (grid, group frequency, accumulation, idxmax, p_ignore) + "
+                 "compiled-driver correspondence with ThresholdOptimizer.fit / _pmf_predict / predict")
     level_text = ("Theorems (all datasets with both labels per group, any number of groups, every constraint / "
                   "objective / flip / grid size, no size bound): every tradeoff point is the metric pair of its own "
                   "ThresholdOperation, hull invariants of the monotone chain, non-degenerate interpolation bracket, "
                   "and exact equality in Rat of the expected constrained metric across groups (parity_simple, "
-                  "parity_EO incl. p_ignore). Tie: fit + interpolation_dict + _pmf_predict vs the compiled Lean model "
+                  "parity_EO incl. p_ignore), restated for the pmf that _pmf_predict computes from the stored "
+                  "interpolation_dict (fit_predict_consistent_simple / _EO); src_* theorems pin what the lifted source "
+                  "text has to say (turn test <=, p0/p1 and their vertices, searchsorted side and correction, midpoint "
+                  "thresholds, sort keys). Tie: fit + interpolation_dict + _pmf_predict vs the compiled Lean model "
                   "on generated and exhaustively enumerated small datasets; independent Fraction oracle decides "
                   "violations from _pmf_predict alone.")
     design_ref = "DESIGN.md section 4, C04"
@@ -310,7 +324,11 @@ class CHECK(ThresholdCheck):
             "{1,2,3,5,7,10,100,1000}; y / sensitive_features as ndarray (1-d or (n,1)), list (sensitive features also as list of 1-element "
             "lists), Series or DataFrame (y column named or 0), group names str or int; for the pandas containers the index LABELS of y, sensitive_features and X are "
             "drawn independently from {default, a non-identity permutation of 0..n-1, offset +100, shuffled strings} "
-            "while rows stay paired by position; rows shuffled. distinct = distinct (configuration, multiset of rows); non-trivial = inside the "
+            "while rows stay paired by position; rows shuffled. ~22% of the cases are NEAR-TIE datasets: ladders of pairwise "
+            "distinct, exactly representable scores k/8 - j*2^t*ulp (t = 1..44, i.e. relative gaps 2^-51 .. 2^-8) mixed with "
+            "exact ties and well separated scores. Every case also carries predict-time QUERY rows (training rows, scores "
+            "exactly on a candidate threshold, just above / below a score or threshold at a random small scale, +-1000, "
+            "an unseen sensitive-feature value) for _pmf_predict and predict(random_state=seed), draws replayed. distinct = distinct (configuration, multiset of rows); non-trivial = inside the "
             "quantifier with >= 2 groups. thorough additionally enumerates ALL multisets of (group,label,level) rows "
             "up to size 7 over 2 groups x 3 levels (14445 datasets) and up to size 8 over 3 groups x 2 levels (3568), the 62 (constraint, objective, flip) configurations and grid sizes cycling over the enumeration.")
     explanation = ("parity theorems proved over the Lean model for all inputs; correspondence compares the "
@@ -322,7 +340,10 @@ class CHECK(ThresholdCheck):
                "modelled by their specification (stable lexicographic sort, count of values <= g, i/N, first maximum)",
                "np.around(.,15) before the equalized-odds arg-max and IEEE rounding are not modelled (exact arg-max; "
                "ties within 1e-8 accepted)",
-               "the pass-through estimator (predict returns the score column) stands for an arbitrary prefit scorer")
+               "the pass-through estimator (predict returns the score column) stands for an arbitrary prefit scorer",
+               "IEEE rounding of the threshold midpoint is not modelled: the generator keeps every midpoint of two near-tie "
+               "scores exactly representable (t >= 1); the remaining case (adjacent doubles) is known finding F17",
+               "comparisons with +-inf thresholds, numpy boolean masks and RandomState.rand are modelled by their specification")
     assumptions = ("every group contains both labels", "scores are finite", "grid_size >= 1")
 
     def exhaustive(self, tier):
@@ -333,7 +354,7 @@ class CHECK(ThresholdCheck):
     def judge(self, case, o, mo):
         probs, ctx = common_judge(case, o, mo, "C04")
         stash_tags(o, ctx)
-        return [p for p in probs if p.kind != "tie-noted"]
+        return tc.cap_when_tie_broken(probs)
 
     def signature(self, case, o):
         return super().signature(case, o)
